@@ -116,6 +116,10 @@ MUTANTS = [
     Mutant("c14-revert-D17-lang-bucket-len", "C14", DL, [
         ("((x if isinstance(x, torch.Tensor) else x[0]).size(0), i)", "(x[0].size(0), i)"),
     ]),
+    Mutant("c14-loader-forces-ignore-when-not-dropping", "C14", DL, [
+        ('            utt_sampler_kwargs["on_uneven_distributed"] = on_uneven_distributed\n        if shuffle:\n            utt_sampler = EpochRandomSampler(\n                dataset, base_seed=seed, **utt_sampler_kwargs\n            )\n        else:\n            utt_sampler = EpochSequentialSampler(dataset, **utt_sampler_kwargs)\n        if num_length_buckets > 1:',
+         '            utt_sampler_kwargs["on_uneven_distributed"] = "ignore"\n        if shuffle:\n            utt_sampler = EpochRandomSampler(\n                dataset, base_seed=seed, **utt_sampler_kwargs\n            )\n        else:\n            utt_sampler = EpochSequentialSampler(dataset, **utt_sampler_kwargs)\n        if num_length_buckets > 1:'),
+    ]),
     Mutant("c14-ali-sizes-from-refs", "C14", DL, [
         ("    feat_sizes = torch.tensor([x.size(0) for x in feats])", "    feat_sizes = torch.tensor([max(x.size(0) - 1, 1) for x in feats])"),
     ]),
